@@ -325,7 +325,8 @@ pub fn run(ctx: &Ctx) -> i32 {
     let b_max = b;
     for depth in 1..=4usize {
         // the deepest nest is explored one cost unit shallower in the quick tier (time budget)
-        let b = if depth == 4 && ctx.tier == Tier::Quick && std::env::var("C02_COST").is_err() { b_max - 1 } else { b_max };
+        // (in both tiers since the block-definition choice was added: the full cost at depth 4 takes over an hour)
+        let b = if depth == 4 && std::env::var("C02_COST").is_err() { b_max - 1 } else { b_max };
         // work units: the first level (and the second when there is one)
         let mut units: Vec<Vec<Level>> = vec![];
         if depth == 1 {
@@ -367,7 +368,7 @@ pub fn run(ctx: &Ctx) -> i32 {
     rep.transitions = Some(acc.evals * 2);
     rep.traces_validated = Some(acc.nontrivial);
     rep.rule = format!(
-        "Every scope skeleton of 1..4 nested procedures over names a b c (all three also global) with total cost <= {} (quick tier: <= cost-1 for the 4-deep nests) where a level chooses, per name, its binding (none / parameter / rest parameter / internal define / - first name only - none, with a sibling internal procedure whose formal has that name / none, with a block (let () (define name ...) ...) after the level's definitions whose definition is local to it), a set! (never / before the inner closure is created / after it) and how the inner closure is used (called in place / returned as a thunk and called after its creator returned / called twice / called twice with both results kept and driven only after the second activation / created three times in a named-let loop and all three called / the same with a fresh binding of c per iteration); cost = number of non-default choices. Every write stores a fresh value of a global counter and every level logs (level phase a b c) at entry, after closure creation and after the inner call; the session's last form returns the log and the globals. The log must equal the reference machine's (environment = persistent map name -> location, fresh location per activation). Non-trivial = agreement on all forms; skeletons are distinct by construction.",
+        "Every scope skeleton of 1..4 nested procedures over names a b c (all three also global) with total cost <= {} (<= cost-1 for the 4-deep nests) where a level chooses, per name, its binding (none / parameter / rest parameter / internal define / - first name only - none, with a sibling internal procedure whose formal has that name / none, with a block (let () (define name ...) ...) after the level's definitions whose definition is local to it), a set! (never / before the inner closure is created / after it) and how the inner closure is used (called in place / returned as a thunk and called after its creator returned / called twice / called twice with both results kept and driven only after the second activation / created three times in a named-let loop and all three called / the same with a fresh binding of c per iteration); cost = number of non-default choices. Every write stores a fresh value of a global counter and every level logs (level phase a b c) at entry, after closure creation and after the inner call; the session's last form returns the log and the globals. The log must equal the reference machine's (environment = persistent map name -> location, fresh location per activation). Non-trivial = agreement on all forms; skeletons are distinct by construction.",
         b
     );
     rep.extra("cost_bound", json!(b));
